@@ -969,7 +969,10 @@ class Interpreter:
                 for node in ast.walk(statement):
                     if isinstance(node, ast.Name):
                         used.add(node.id)
-        return {varname: assignments[varname] for varname in defined - used}
+        # report in order of definition (iterating the set difference depends on the hash seed)
+        return {
+            varname: assignment for varname, assignment in assignments.items() if varname not in used
+        }
 
     def unused_variables(self) -> FrozenSet[str]:
         return self.unused_assignments().keys()  # type: ignore
